@@ -13,7 +13,8 @@
                         "bound": "one insertion into every AVL tree of height <= 4 (<= 15 nodes; all shapes, all unsigned 64-bit keys, every inserted key)"}},
  "expects": ["assertion_verif", "assertion_repo", "array_bounds"],
  "assumes": ["the global statement (insertion preserves the AVL/BST invariant for trees of ANY size) is checked only up to the stated height; the unbounded part is TREE.rot / TREE.balance",
-             "xmalloc does not fail (stubs/base.c)"]
+             "xmalloc does not fail; node size sz in {sizeof(struct treenode)+1, 40, 64} (the one call site passes sizeof(struct switchcase) == 40)",
+             "CBMC 6.11 symex defect worked around in the xmalloc stub (see comment there)"]
 }
 */
 #include "tree.c"
@@ -51,10 +52,12 @@ unsigned nondet_slot(void);
 void *
 xmalloc(size_t n)
 {
-	void *p = malloc(n);
+	/* constant-size objects (a heap object of symbolic size sends CBMC into its unbounded-array theory) */
+	void *p = n == sizeof(struct treenode) + 1 ? malloc(sizeof(struct treenode) + 1) : n == 40 ? malloc(40) : malloc(64);
 	_Bool fresh = nondet_fresh();
 	void *r;
 
+	__CPROVER_assert(n == sizeof(struct treenode) + 1 || n == 40 || n == 64, "size within the case split of this unit");
 	__CPROVER_assume(p != 0);
 	r = fresh ? p : (void *)nd[nondet_slot() % 16];
 	__CPROVER_assume(fresh);
@@ -178,6 +181,7 @@ insert_observed(void **root, unsigned long long key, size_t sz)
 	X(root != 0) \
 	/* the one call site (qbe.c switchcase) passes sizeof(struct switchcase); treeinsert asserts this */ \
 	X(sz > sizeof(struct treenode)) \
+	X(sz == sizeof(struct treenode) + 1 || sz == 40 || sz == 64) \
 	X(g_key == key) \
 	X(g_pre.bst && g_pre.exact && g_pre.bal && g_pre.shallow && g_pre.height <= H) \
 	X(IMP(g_p != 0, g_pre.has_p && g_p->key == g_pkey))
